@@ -146,3 +146,13 @@ Definition stmts_ok (c : bool * bool * list node * bool) : bool :=
   let '(keep, ret, l, got) := c in Bool.eqb (stmts_can_remove harness_unbound keep ret l) got.
 Definition check_stmts := mismatches stmts_ok.
 Definition check_class := mismatches expr_ok.
+
+(* direct tie of js_ast.KnownPrimitiveType: the Go enum value (PrimitiveUnknown=0,
+   Mixed, Null, Undefined, Boolean, Number, String, BigInt=7) *)
+Definition ptype_code (t : ptype) : Z :=
+  match t with
+  | TUnknown => 0 | TMixed => 1 | TNull => 2 | TUndefined => 3
+  | TBoolean => 4 | TNumber => 5 | TString => 6 | TBigInt => 7
+  end.
+Definition kpt_ok (c : node * Z) : bool := ptype_code (kpt (fst c)) =? snd c.
+Definition check_kpt := mismatches kpt_ok.
